@@ -1,8 +1,9 @@
 (* C07 — parallel execution yields the same results as sequential execution.
    Only statements here; the model is Model/Parallel.v, proofs live in Proofs/Parallel*.v. *)
+From Coq Require Import String.
 From Coq Require Import ZArith List Bool Lia PeanoNat Permutation.
 From PyxelV Require Import Model.Parallel Proofs.ParallelParams Proofs.ParallelSched Proofs.ParallelRng
-     Proofs.ParallelFull.
+     Proofs.ParallelFull Proofs.ParallelPickle.
 From PyxelGen Require Import Gen_C07.
 Import ListNotations.
 
@@ -429,3 +430,99 @@ Proof.
   split; [now apply rank_lt|now apply unrank_rank].
 Qed.
 Print Assumptions C07_file_index_as_coded.
+
+(* ===================================================================== 5. what a worker receives (round 2b) *)
+
+(* Under the synchronous / threaded scheduler a task works on a deep copy of the caller's processor; under a process
+   pool on what a pickle round trip restores.  `src_pickle_hooks` (Gen_C07.v) is regenerated from every
+   __getstate__ / __setstate__ under pyxel/{pipelines,detectors,data_structure,outputs,exposure,observation,
+   calibration}.  When every attribute of every hooked class comes back (hooks_faithful), the pipeline a worker
+   receives is the caller's, pickled or not -- for every pipeline (any models, any enabled flags) *)
+(* deep copies (the sequential path, the synchronous and the threaded scheduler) do not go through the hooks of a class
+   that has a __deepcopy__ of its own: whatever those hooks do, the run works on the caller's pipeline *)
+Theorem C07_deep_copies_bypass_hooks :
+  forall hooks ms, forallb hk_deepcopy hooks = true -> worker_models hooks false ms = Some ms.
+Proof. exact worker_models_direct. Qed.
+Print Assumptions C07_deep_copies_bypass_hooks.
+
+Theorem C07_worker_receives_the_pipeline :
+  forall hooks, hooks_faithful hooks = true ->
+  forall (pickled : bool) (ms : list minst), worker_models hooks pickled ms = Some ms.
+Proof. exact worker_models_faithful. Qed.
+Print Assumptions C07_worker_receives_the_pipeline.
+
+(* why the rows matter (1): a group whose models are rebuilt from a definition WITHOUT the `enabled` flag comes back
+   with every model switched on -- every model of the group executes, and as soon as ONE model of the caller's group
+   is switched off the worker's run differs from the sequential one (for every such pipeline, not for a witness) *)
+Theorem C07_definition_without_enabled_runs_everything :
+  forall kept ms,
+  has_field FFunc kept = true -> has_field FName kept = true -> has_field FArgs kept = true ->
+  has_field FEnabled kept = false ->
+  exists ms', restore_models (ARebuilt kept) ms = Some ms'
+              /\ executed ms' = map mi_ident ms
+              /\ (existsb (fun m => negb (mi_enabled m)) ms = true -> executed ms' <> executed ms).
+Proof. intros kept ms. apply rebuild_without_enabled. Qed.
+Print Assumptions C07_definition_without_enabled_runs_everything.
+
+(* why the rows matter (2): an attribute a hook does not restore is not on the unpickled object, the restored ones
+   keep their value; and restoring all of them gives the object back *)
+Theorem C07_unrestored_attribute_is_lost :
+  forall (V : Type) (restored : list string) (o : list (string * V)),
+  ((forall a, In a (map fst o) -> In a restored) -> unpickle_obj restored o = o)
+  /\ (forall a, ~ In a restored -> ~ In a (map fst (unpickle_obj restored o)))
+  /\ (forall a v, In a restored -> In (a, v) o -> In (a, v) (unpickle_obj restored o)).
+Proof.
+  intros V restored o. split; [apply unpickle_all|]. split; [intros a; apply unpickle_lost|].
+  intros a v. apply unpickle_kept.
+Qed.
+Print Assumptions C07_unrestored_attribute_is_lost.
+
+Example C07_worker_nonvacuous :
+  let ms := [mkMI 3 true; mkMI 5 false; mkMI 0 true] in
+  let good := [mkHook "ModelGroup" true [("_log", ARecreated); ("_name", AWhole); ("models", AWhole)]]%string in
+  let forgetful := [mkHook "ModelGroup" true [("_log", ARecreated); ("_name", AWhole);
+                                              ("models", ARebuilt [FFunc; FName; FArgs])]]%string in
+  hooks_faithful good = true /\ worker_models good true ms = Some ms /\ executed ms = [3; 0]%Z
+  /\ hooks_faithful forgetful = false
+  /\ option_map executed (worker_models forgetful true ms) = Some [3; 5; 0]%Z
+  /\ worker_models forgetful false ms = Some ms
+  /\ worker_models [mkHook "ModelGroup" true [("_name", AWhole); ("models", AMissing)]]%string true ms = None
+  (* the same hooks on a class WITHOUT a __deepcopy__ of its own: every deep copy is rebuilt too *)
+  /\ option_map executed (worker_models [mkHook "ModelGroup" false [("models", ARebuilt [FFunc; FName; FArgs])]]%string
+                                        false ms) = Some [3; 5; 0]%Z.
+Proof. vm_compute. repeat split; reflexivity. Qed.
+
+(* the code AS IT IS NOW: every hook restores every attribute __init__ sets *)
+Theorem C07_pickle_hooks_as_coded : hooks_faithful src_pickle_hooks = true.
+Proof. vm_compute. reflexivity. Qed.
+Print Assumptions C07_pickle_hooks_as_coded.
+
+(* ... and a group executes exactly the models that are switched on, in order (`executed`): ModelGroup.__iter__ / run *)
+Theorem C07_group_runs_enabled_only_as_coded : src_group_runs_enabled_only = true.
+Proof. vm_compute. reflexivity. Qed.
+Print Assumptions C07_group_runs_enabled_only_as_coded.
+
+(* ... hence, for the code as it is now, UNDER EVERY SCHEDULER KIND (tasks pickled or not): for every pipeline, every
+   run function of (pipeline received, values received), every mode and parameter space, every set of distinct keys
+   and EVERY completion order, the parallel result computed on what the workers receive and the sequential result
+   computed on the caller's pipeline are the same label -> data map *)
+Theorem C07_any_scheduler_as_coded :
+  forall (B : Type) (run : list minst -> list (option pval) -> B) (pickled : bool) (ms : list minst)
+         (keys : list nat) (m : mode),
+  NoDup keys -> mode_wf (length keys) m ->
+  exists ms' sh cells,
+    worker_models src_pickle_hooks pickled ms = Some ms'
+    /\ executed ms' = executed ms
+    /\ dask_params_cfg src_cfg m = Some (sh, cells)
+    /\ length cells = prodn sh
+    /\ (forall t, In t cells <-> In t (seq_params m))
+    /\ forall completion,
+         Permutation completion (dask_tasks (cfg_bind src_cfg) keys keys keys cells) ->
+         forall t r, In (t, Some r) (dask_result (run ms') cells completion) <-> In (t, r) (seq_result (run ms) m).
+Proof.
+  intros B run pickled ms keys m Hnd Hwf.
+  destruct (C07_parallel_equals_sequential_as_coded B (run ms) keys m Hnd Hwf) as (sh & cells & E & L & S & R).
+  exists ms, sh, cells. split; [apply (C07_worker_receives_the_pipeline _ C07_pickle_hooks_as_coded)|].
+  split; [reflexivity|]. repeat split; try assumption; try apply S; apply (R completion H).
+Qed.
+Print Assumptions C07_any_scheduler_as_coded.
